@@ -30,7 +30,7 @@ type C19Call struct {
 
 type C19Plan struct {
 	Type     string    `json:"type"`     // "ed" | "rsa"
-	Holds    string    `json:"holds"`    // "A" (matched) | "B" (PEM holds another key than the declared public key)
+	Holds    string    `json:"holds"`    // "A" (matched) | "B" (PEM holds another key of the same type) | "X" (PEM holds a key of the OTHER type)
 	Rounds16 bool      `json:"rounds16,omitempty"`
 	Calls    []C19Call `json:"calls"`
 }
@@ -50,12 +50,12 @@ func (C19) Runs(tier string) int {
 func (C19) Meta() core.Meta {
 	return core.Meta{
 		Level: "exploration",
-		Rule: "a case = history of 2..6 Decrypt calls on ONE agessh.EncryptedSSHIdentity value (ed25519 in OpenSSH format or RSA in legacy PEM; PEM holding the declared key A or another key B) over reference-written files whose stanza lists address A, B and unrelated keys of the same and of other types in any order, optionally with one crafted stanza (other SSH type carrying A's tag, A's type and tag with a body that does not open, stanzas without arguments); the passphrase callback answers right/wrong/error per plan and counts invocations. Every call's result class (plaintext / no-match / fatal error), plaintext and prompt count must equal the model {validated: bool}. Non-trivial = history contains a prompt; distinct = distinct (type, holds, history skeleton).",
+		Rule: "a case = history of 2..6 Decrypt calls on ONE agessh.EncryptedSSHIdentity value (ed25519 in OpenSSH format or RSA in legacy PEM; PEM holding the declared key A, another key B of the same type, or a key of the other type) over reference-written files whose stanza lists address A, B and unrelated keys of the same and of other types in any order, optionally with one crafted stanza (other SSH type carrying A's tag, A's type and tag with a body that does not open, stanzas without arguments); the passphrase callback answers right/wrong/error per plan and counts invocations. Every call's result class (plaintext / no-match / fatal error), plaintext and prompt count must equal the model {validated: bool}. Non-trivial = history contains a prompt; distinct = distinct (type, holds, history skeleton).",
 		Assumptions: []string{"fixture keys generated once with ssh-keygen -a 1 (cheap KDF) and committed; stanzas of the identity's type always carry a tag argument"},
 		Real:        []string{"agessh.EncryptedSSHIdentity", "agessh Ed25519/RSA identities", "x/crypto/ssh key parsing", "filippo.io/age Decrypt"},
 		Stub:        []string{"passphrase callback", "files (reference writer)", "source"},
 		FaultKinds:  []string{"fault.passphrase_wrong", "fault.passphrase_error", "fault.mismatched_private_key"},
-		Probes:      []string{"probe.prompted", "probe.no_prompt_no_match", "probe.validated_then_reused", "probe.after_mismatch_file_to_B", "probe.after_mismatch_same_file", "probe.after_wrong_then_right", "probe.match_not_first_stanza", "probe.same_type_other_tag", "probe.crafted_other_type_same_tag", "probe.crafted_same_tag_bad_body"},
+		Probes:      []string{"probe.prompted", "probe.no_prompt_no_match", "probe.validated_then_reused", "probe.after_mismatch_file_to_B", "probe.after_mismatch_same_file", "probe.after_wrong_then_right", "probe.match_not_first_stanza", "probe.same_type_other_tag", "probe.crafted_other_type_same_tag", "probe.crafted_same_tag_bad_body", "probe.key_file_of_other_type"},
 	}
 }
 
@@ -63,6 +63,9 @@ func (C19) Generate(r *core.RNG, tier string, idx uint64) interface{} {
 	p := &C19Plan{Type: []string{"ed", "rsa"}[r.Intn(2)], Holds: "A"}
 	if r.Chance(2, 5) {
 		p.Holds = "B"
+		if r.Chance(1, 3) {
+			p.Holds = "X"
+		}
 	}
 	if tier == "thorough" && p.Type == "ed" && p.Holds == "A" && r.Chance(1, 50) {
 		p.Rounds16 = true
@@ -189,6 +192,14 @@ func (e C19) Execute(plan interface{}, c *core.Ctx) *core.Verdict {
 	pem, pass := ks.pemA, ks.passA
 	if p.Holds == "B" {
 		pem, pass = ks.pemB, ks.passB
+	}
+	if p.Holds == "X" {
+		// the key file holds a key of the other SSH key type
+		other := "rsa"
+		if p.Type == "rsa" {
+			other = "ed"
+		}
+		pem, pass = world.Fixture("c19_"+other+"B.enc"), "pass-"+other+"B"
 	}
 	prompts := 0
 	answer := "right"
@@ -364,7 +375,7 @@ func (e C19) Execute(plan interface{}, c *core.Ctx) *core.Verdict {
 			switch {
 			case cl.Answer != "right":
 				wantClass = "fatal"
-			case p.Holds == "B":
+			case p.Holds != "A":
 				wantClass = "fatal"
 			default:
 				validated = true
@@ -407,8 +418,11 @@ func (e C19) Execute(plan interface{}, c *core.Ctx) *core.Verdict {
 				sawWrong = true
 			case cl.Answer == "error" || cl.Answer == "error-with-value":
 				c.Stats.Inc("fault.passphrase_error")
-			case p.Holds == "B":
+			case p.Holds != "A":
 				c.Stats.Inc("fault.mismatched_private_key")
+				if p.Holds == "X" {
+					c.Stats.Inc("probe.key_file_of_other_type")
+				}
 				if !sawMismatch {
 					firstMismatchStanzas = fmt.Sprint(cl.Stanzas)
 				}
